@@ -291,18 +291,20 @@ func genC04(env *core.Env, emit func(core.Case)) {
 			plan.Enc.Exts[plan.MarkerPos] = f(plan.Refs, ot)
 			run(rule, posClass(plan.MarkerPos, len(plan.Enc.Exts)), classes, plan, key, true, nil)
 		}
-		eoe("eoeMalformed", []string{"decode"}, func(refs, ot []uint16) gen.Ext {
-			good := gen.OuterExtensions(refs...).Data
-			switch r.IntN(3) {
-			case 0:
-				return gen.Ext{Type: 0xfd00, Data: nil}
-			case 1:
-				return gen.Ext{Type: 0xfd00, Data: good[:len(good)-1]} // length byte larger than the data
-			default:
-				d := gen.Cat([]byte{byte(len(good))}, good[1:], []byte{7}) // odd number of bytes
-				return gen.Ext{Type: 0xfd00, Data: d}
-			}
-		})
+		for variant := 0; variant < 3; variant++ {
+			eoe("eoeMalformed", []string{"decode"}, func(refs, ot []uint16) gen.Ext {
+				good := gen.OuterExtensions(refs...).Data
+				switch variant {
+				case 0:
+					return gen.Ext{Type: 0xfd00, Data: nil}
+				case 1:
+					return gen.Ext{Type: 0xfd00, Data: good[:len(good)-1]} // length byte larger than the data
+				default:
+					d := gen.Cat([]byte{byte(len(good))}, good[1:], []byte{7}) // odd number of bytes
+					return gen.Ext{Type: 0xfd00, Data: d}
+				}
+			})
+		}
 		eoe("eoeOutOfOrder", []string{"illegal"}, func(refs, ot []uint16) gen.Ext {
 			if len(refs) < 2 {
 				return gen.OuterExtensions(0xfe0d)
